@@ -174,7 +174,7 @@ Restart == On("Restart") /\ (ctl # [Ctl0 EXCEPT !.minEff = ctl.minEff, !.maxEff 
 
 FaultUniverse ==
   {[op |-> o, t |-> n] : o \in FaultOps \cap {"get", "update", "conflict", "delete", "terminate"}, n \in Present}
-  \cup {[op |-> o, t |-> G] : o \in FaultOps \cap {"set_desired", "list_pods", "list_nodes"}}
+  \cup {[op |-> o, t |-> G] : o \in FaultOps \cap {"set_desired", "list_pods", "list_nodes", "slow"}}
   \cup (IF "describe_all" \in FaultOps THEN {[op |-> "describe_asgs", t |-> "all"]} ELSE {})
   \cup (IF "crash" \in FaultOps THEN {[op |-> "crash", t |-> "#" \o ToString(k)] : k \in 1..3} ELSE {})
 AllFaultSets == {F \in SUBSET FaultUniverse : Cardinality(F) <= MaxFaults}
@@ -194,6 +194,7 @@ Touches(r, f) == \E i \in 1..Len(r.calls) : /\ r.calls[i].op = (IF f.op = "confl
                                               /\ \/ r.calls[i].n = f.t
                                                  \/ (f.op \in {"set_desired", "list_pods", "list_nodes"} /\ r.calls[i].g = f.t)
                                                  \/ f.op = "describe_asgs"
+                 \/ (f.op = "slow" /\ \E j \in 1..Len(r.calls) : r.calls[j].op \in {"set_desired", "create_fleet"} /\ r.calls[j].ok /\ r.calls[j].g = f.t)
                  \/ (f.op = "crash" /\ ~r.crash /\ KthWrite(r.calls, CHOOSE k \in 1..3 : f.t = "#" \o ToString(k)) > 0)
 Relevant(W, F) == {f \in FaultUniverse \ F : \E r \in Outcomes(W, F) : Touches(r, f)}
 RECURSIVE Grow(_, _, _)
@@ -216,7 +217,8 @@ RunOnceAct ==
           /\ api' = g2.api /\ asg' = g2.asg /\ pc' = g2.pc /\ accepted' = g2.accepted
           /\ ctl' = IF r.crash THEN ctl ELSE g2.ctl       \* a crashed process has no memory; Restart resets it
           /\ alive' = r.W.alive
-       /\ UNCHANGED <<now, pend, run, snap>>      \* pods of a removed node stay until they finish or the Node is collected
+       /\ now' = r.W.now                         \* a slow cloud call lets a tick pass inside the scan
+       /\ UNCHANGED <<pend, run, snap>>           \* pods of a removed node stay until they finish or the Node is collected
 
 Next == Tick \/ PodArrive \/ PodSchedule \/ PodFinish \/ CloudLaunch \/ Register \/ Cordon \/ Uncordon \/ ExtForce \/ ExtUnforce
         \/ Annotate \/ Unannotate \/ ExtTaint \/ ExtUntaint \/ NodeGone \/ AsgEdit \/ DesiredBump \/ InstanceGone \/ LagOn \/ LagOff \/ Restart \/ RunOnceAct
